@@ -3,7 +3,7 @@
 set -e
 B=/tmp/clipper2_baseline_off_build
 rm -rf "$B"
-cmake -G Ninja -S /repo/CPP -B "$B" -DCMAKE_BUILD_TYPE=Release >/dev/null
+cmake -G Ninja -S /repo/CPP -B "$B" -DCMAKE_BUILD_TYPE=RelWithDebInfo -DUSE_EXTERNAL_GTEST=ON -DCLIPPER2_EXAMPLES=OFF >/dev/null
 cmake --build "$B" -j16 >/dev/null
 ctest --test-dir "$B" -j8 --timeout 900
 rc=$?
